@@ -130,7 +130,7 @@ def run_real(ctx, lst, options):
 
 
 REAL = [(["ARG", "JPN"], {}), (["!USA"] + ["!" + c for c in []], None), (["NZL", "!AUS", "DJI"], dict(crop_disruption="country_nuclear_winter")),
-        (["ISL", "BRA", "EGY"], dict(shutoff="immediate", waste="zero"))]
+        (["BRB", "BRA", "EGY"], dict(shutoff="immediate", waste="zero"))]
 
 
 def shard(ctx):
